@@ -150,6 +150,7 @@ pub fn run(run: &Run) {
     idx.par_iter().for_each(|&i0| {
         let i = (i0 + seed) % total;
         let text = &all[i];
+        let _w = run.watch("formula", "formula", text);
         let f: fol::Formula = match text.parse() {
             Ok(f) => f,
             Err(_) => {
